@@ -1,117 +1,12 @@
 ------------------------------- MODULE RuxChain -------------------------------
 (***************************************************************************)
-(* One request running its handler chain: Context.Next / Abort / IsAborted *)
-(* (context.go), the lazy header-committing responseWriter                 *)
-(* (response_wirter.go) and the panic / error hooks of handleHTTPRequest   *)
-(* (dispatch.go).  Properties C04, C05, C08, C09.                          *)
-(*                                                                         *)
-(* A chain is a sequence of handler scripts; a script is a sequence of ops *)
-(*   <<"in">> <<"out">>           log entry + probe of IsAborted()         *)
-(*   <<"next">>                   c.Next()                                 *)
-(*   <<"abort">>                  c.Abort()                                *)
-(*   <<"abortStatus", code>>      c.AbortWithStatus(code)                  *)
-(*   <<"status", code>>           c.SetStatus(code)                        *)
-(*   <<"write", n, mode>>         c.Resp.Write(n bytes); mode = how the    *)
-(*                                underlying writer replies: full|short|err*)
-(*   <<"flush">>                  c.Resp.(http.Flusher).Flush()            *)
-(*   <<"httpError", code, n>>     http.Error(c.Resp, n-1 byte msg, code)   *)
-(*   <<"err">>                    c.AddError(e)                            *)
-(*   <<"panic">>                  panic(v)                                 *)
-(*                                                                         *)
-(* IDEAL machine (declarative, a recursive function): what the statements  *)
-(* promise - onion order, each handler at most once, nothing new after an  *)
-(* abort, suspended frames finish, a panic stops everything.               *)
-(* CURSOR machine (operational, a step machine): Context.Next as written,  *)
-(* with the int8 cursor, the sentinel abortIndex and wrap-around.          *)
-(* TLC checks that every run of the cursor machine produces a prefix of,   *)
-(* and finally exactly, the ideal log, never crashes, and that the writer  *)
-(* log satisfies OneCommit.                                                *)
+(* One request running its handler chain.  The scripts, the response       *)
+(* writer as pure functions, the IDEAL machine and the ideal dispatch are  *)
+(* defined in RuxChainFn (see the comments there); this module adds the    *)
+(* CURSOR machine: Context.Next as written, with the int8 cursor, the      *)
+(* sentinel abortIndex and wrap-around, and what TLC checks about it.      *)
 (***************************************************************************)
-EXTENDS Integers, Sequences, FiniteSets, SequencesExt, TLC
-
-CONSTANTS MaxInt,          \* 127 for int8
-          AbortIdx,        \* abortIndex = 63
-          D_NextCreeps,    \* F8: Next() as found: `c.index++` on entry and after every handler
-          D_FlushNoCommit, \* F10: Flush() does not commit the header first
-          D_PanicNoCommit  \* F11: the recover path skips the end-of-dispatch commit
-
-Wrap(x) == IF x > MaxInt THEN x - 2 * (MaxInt + 1) ELSE x        \* two's complement increment overflow
-Cast(n) == LET m == n % (2 * (MaxInt + 1)) IN IF m > MaxInt THEN m - 2 * (MaxInt + 1) ELSE m   \* int8(len)
-
------------------------------------------------------------------------------
-(* the response writer as pure functions over w = [status, committed, length, under] *)
-W0 == [status |-> 0, committed |-> FALSE, length |-> -1, under |-> <<>>]
-Accepted(n, mode) == CASE mode = "full" -> n [] mode = "short" -> (IF n > 0 THEN n - 1 ELSE 0) [] mode = "err" -> 0
-WHeader(w, c) == IF c > 0 /\ w.status # c THEN [w EXCEPT !.status = c] ELSE w
-WEnsure(w)    == IF w.committed THEN w
-                 ELSE LET st == IF w.status = 0 THEN 200 ELSE w.status IN
-                      [status |-> st, committed |-> TRUE, length |-> 0, under |-> Append(w.under, <<"WH", st>>)]
-WWrite(w, n, mode) == LET w1 == WEnsure(w) IN
-                      [w1 EXCEPT !.length = @ + Accepted(n, mode), !.under = Append(@, <<"W", n, Accepted(n, mode)>>)]
-WFlush(w)     == LET w1 == IF D_FlushNoCommit THEN w ELSE WEnsure(w) IN [w1 EXCEPT !.under = Append(@, <<"FL">>)]
-WError(w, c, n) == WWrite(WHeader(w, c), n, "full")      \* http.Error: WriteHeader(code); Fprintln(msg)
-
-IsWriterOp(op) == op[1] \in {"status", "write", "flush", "httpError", "abortStatus"}
-ApplyW(w, op) == CASE op[1] = "status"      -> WHeader(w, op[2])
-                   [] op[1] = "abortStatus" -> WHeader(w, op[2])
-                   [] op[1] = "write"       -> WWrite(w, op[2], op[3])
-                   [] op[1] = "flush"       -> WFlush(w)
-                   [] op[1] = "httpError"   -> WError(w, op[2], op[3])
-                   [] OTHER                 -> w
-
-(* C08, declarative: computed from the sequence of writer ops the handlers executed, not from the writer *)
-Commits(op)   == op[1] \in {"write", "flush", "httpError"}
-StatusArg(op) == IF op[1] \in {"status", "abortStatus", "httpError"} THEN op[2] ELSE 0
-RECURSIVE ExpStatus(_, _, _)
-ExpStatus(wops, i, cur) ==            \* last positive status set before the first write or flush (200 if none)
-  IF i > Len(wops) THEN (IF cur = 0 THEN 200 ELSE cur)
-  ELSE LET c == StatusArg(wops[i])  cur2 == IF c > 0 THEN c ELSE cur IN
-       IF Commits(wops[i]) THEN (IF cur2 = 0 THEN 200 ELSE cur2) ELSE ExpStatus(wops, i + 1, cur2)
-BodyOps(wops) == SelectSeq(wops, LAMBDA op : Commits(op))
-ExpUnderOf(op) == CASE op[1] = "write" -> <<"W", op[2], Accepted(op[2], op[3])>>
-                    [] op[1] = "httpError" -> <<"W", op[3], op[3]>>
-                    [] op[1] = "flush" -> <<"FL">>
-ExpUnder(wops) == << <<"WH", ExpStatus(wops, 1, 0)>> >> \o [i \in 1..Len(BodyOps(wops)) |-> ExpUnderOf(BodyOps(wops)[i])]
-RECURSIVE SumAcc(_, _)
-SumAcc(u, i) == IF i > Len(u) THEN 0 ELSE (IF u[i][1] = "W" THEN u[i][3] ELSE 0) + SumAcc(u, i + 1)
-\* exactly one WriteHeader, first, with the right code; body = accepted bytes in order; Length = their number
-OneCommit(w, wops) == w.committed /\ w.under = ExpUnder(wops) /\ w.length = SumAcc(w.under, 1)
-
------------------------------------------------------------------------------
-(* IDEAL machine: st = [started, ab, pan, log, w, wops, errs] *)
-St0 == [started |-> 0, ab |-> FALSE, pan |-> FALSE, log |-> <<>>, w |-> W0, wops |-> <<>>, errs |-> 0]
-
-RECURSIVE IRunNext(_, _), IRunHandler(_, _, _, _)
-IRunNext(chain, st) ==
-  IF st.pan \/ st.ab \/ st.started >= Len(chain) THEN st
-  ELSE IRunNext(chain, IRunHandler(chain, [st EXCEPT !.started = @ + 1], st.started + 1, 1))
-IRunHandler(chain, st, h, pc) ==
-  IF st.pan \/ pc > Len(chain[h]) THEN st
-  ELSE LET op == chain[h][pc] IN
-       CASE op[1] = "in"    -> IRunHandler(chain, [st EXCEPT !.log = Append(@, <<"in", h, st.ab>>)], h, pc + 1)
-         [] op[1] = "out"   -> IRunHandler(chain, [st EXCEPT !.log = Append(@, <<"out", h, st.ab>>)], h, pc + 1)
-         [] op[1] = "next"  -> IRunHandler(chain, IRunNext(chain, st), h, pc + 1)
-         [] op[1] = "abort" -> IRunHandler(chain, [st EXCEPT !.ab = TRUE], h, pc + 1)
-         [] op[1] = "abortStatus" -> IRunHandler(chain, [st EXCEPT !.ab = TRUE, !.w = ApplyW(@, op), !.wops = Append(@, op)], h, pc + 1)
-         [] op[1] = "err"   -> IRunHandler(chain, [st EXCEPT !.errs = @ + 1], h, pc + 1)
-         [] op[1] = "panic" -> [st EXCEPT !.pan = TRUE]
-         [] OTHER           -> IRunHandler(chain, [st EXCEPT !.w = ApplyW(@, op), !.wops = Append(@, op)], h, pc + 1)
-
-\* a hook / OnError script is a handler outside the chain (logged as handler 0); it cannot call next
-RunExtra(st, script) == LET c2 == <<script>>
-                            r  == IRunHandler(c2, [st EXCEPT !.pan = FALSE, !.log = <<>>], 1, 1)
-                        IN [r EXCEPT !.log = st.log \o [i \in 1..Len(r.log) |-> <<r.log[i][1], 0, r.log[i][3]>>]]
-
-\* the whole dispatch: chain, then OnError (if errors and a handler is installed), then the end-of-dispatch commit;
-\* with a panic: the hook (if installed) and then the commit, otherwise the panic escapes and nothing is committed
-None == << <<"nohandler">> >>      \* no OnError / OnPanic handler installed (distinct from the empty script)
-IdealDispatch(chain, onerror, hook) ==
-  LET r1 == IRunNext(chain, St0)
-      r2 == IF ~r1.pan /\ r1.errs > 0 /\ onerror # None THEN RunExtra(r1, onerror) ELSE r1
-  IN IF ~r2.pan THEN [r2 EXCEPT !.w = WEnsure(@)] @@ [escaped |-> FALSE, hooked |-> FALSE]
-     ELSE IF hook = None THEN r2 @@ [escaped |-> TRUE, hooked |-> FALSE]
-     ELSE LET r3 == RunExtra(r2, hook) IN
-          [r3 EXCEPT !.w = IF D_PanicNoCommit THEN @ ELSE WEnsure(@), !.pan = TRUE] @@ [escaped |-> r3.pan, hooked |-> TRUE]
+EXTENDS RuxChainFn
 
 -----------------------------------------------------------------------------
 (* CURSOR machine: Context.Next as a step machine *)
